@@ -278,6 +278,37 @@ func bufferedSingleUse(p *Prog, ce *ChanEngine, op *ChanOp) (bool, string) {
 		return false, ""
 	}
 	mks := ce.MakesOf(v)
+	if len(mks) == 0 && !v.IsField() && op.Func.Root().Obj != nil && isParam(op.Func.Root(), v) {
+		// the channel arrives as a parameter: take the make sites of the argument at the (single) call site
+		rootFn := op.Func.Root()
+		sig := rootFn.Obj.Type().(*types.Signature)
+		idx := -1
+		for i := 0; i < sig.Params().Len(); i++ {
+			if sig.Params().At(i) == v {
+				idx = i
+			}
+		}
+		var args []*types.Var
+		for _, h := range p.Funcs {
+			if h.Body == nil {
+				continue
+			}
+			hin := info(h)
+			inspectNoLit(h.Body, func(m ast.Node) bool {
+				if cl, ok := m.(*ast.CallExpr); ok && callee(hin, cl) == rootFn.Obj && idx >= 0 && idx < len(cl.Args) {
+					if id, ok := unparen(cl.Args[idx]).(*ast.Ident); ok {
+						if av, ok := objOf(hin, id).(*types.Var); ok {
+							args = append(args, av)
+						}
+					}
+				}
+				return true
+			})
+		}
+		if len(args) == 1 {
+			mks = ce.MakesOf(args[0])
+		}
+	}
 	if len(mks) == 0 {
 		return false, ""
 	}
@@ -306,6 +337,44 @@ func bufferedSingleUse(p *Prog, ce *ChanEngine, op *ChanOp) (bool, string) {
 		return false
 	}
 	if !v.IsField() {
+		// a parameter of a helper that is invoked (called or launched) at exactly one site, in the function that
+		// makes the channel, outside any loop that does not also contain the make: one helper run per made channel
+		if len(mks) == 1 && mks[0].Func.Root() != root && root.Obj != nil && isParam(root, v) {
+			sites := 0
+			var site *ast.CallExpr
+			var siteFn *FuncInfo
+			for _, h := range p.Funcs {
+				if h.Body == nil {
+					continue
+				}
+				hin := info(h)
+				inspectNoLit(h.Body, func(m ast.Node) bool {
+					if cl, ok := m.(*ast.CallExpr); ok && callee(hin, cl) == root.Obj {
+						sites++
+						site, siteFn = cl, h
+					}
+					return true
+				})
+			}
+			if sites != 1 || siteFn.Root() != mks[0].Func.Root() || innermostLoop(p, site) != innermostLoop(p, mks[0].Call) {
+				return false, ""
+			}
+			for _, s := range sends {
+				if s.Func != root || innermostLoop(p, s.Node) != nil {
+					return false, ""
+				}
+				for _, t := range sends {
+					if s != t {
+						g := p.Graph(s.Func)
+						spt, _ := g.PointOf(s.Node)
+						if r, _ := g.Reaches(spt, func(n ast.Node) bool { return n == t.Node }, nil); r {
+							return false, ""
+						}
+					}
+				}
+			}
+			return true, fmt.Sprintf("channel made with capacity >= 1 at %s and handed to %s, which runs once per made channel and sends at most once", p.Pos(mks[0].Call.Pos()), root.QName())
+		}
 		// local: make and sends in the same declared function; no loop between the make's block and a send
 		if len(mks) != 1 || mks[0].Func.Root() != root {
 			return false, ""
